@@ -3,7 +3,7 @@
 ENGINES = [
     {'name': 'explore', 'path': 'lib/vt/explore.py',
      'serves_properties': ['C01', 'C02', 'C03', 'C04', 'C06', 'C07',
-                           'C08', 'C09', 'C11', 'C14',
+                           'C08', 'C09', 'C14',
                            'C15', 'C17', 'C18', 'C19', 'C20'],
      'kind_free_text': 'bounded exhaustive enumeration driver: shards a finite '
                        'case space over 16 long-lived workers, runs the real '
@@ -16,6 +16,23 @@ NOTES = ('Every check executes the implementation in /repo/src (working tree) '
          'DESIGN.md.')
 
 CHECKS = [
+    {'id': 'C11', 'engine': 'explore', 'level': 'exploration',
+     'design_ref': 'DESIGN.md §4 C11',
+     'technique': 'bounded exhaustive enumeration of seeds x layer-size '
+                  'vectors x execution modes on the real Runner against an '
+                  'independent Fisher-Yates reference; harness-owned clock for '
+                  'seedless runs; the real shuffle.py under 5 interpreters',
+     'text': 'For 39 layer-size vectors and every seed 0..31 (thorough 0..255) '
+             'the per-layer order is taken from --list-tests, a sequential '
+             'run, a --layer-filtered run of each layer, a -j2 run and a run '
+             'with resumed children; each must be a permutation of its own '
+             'layer, equal across modes and equal to the reference; seeds up '
+             'to 255 (4095) and extreme seeds in list mode; seedless runs '
+             'under a controlled clock must report exactly one seed that '
+             'reproduces every process; shuffle.py is executed under CPython '
+             '3.9-3.13 and result digests compared with the reference.',
+     'note': 'Other interpreters run shuffle.py with a stubbed feature base '
+             'class; PyPy is not available.'},
     {'id': 'C10', 'engine': 'explore', 'level': 'exploration',
      'design_ref': 'DESIGN.md §4 C10',
      'technique': 'exhaustive small-scope enumeration of all labelled layer '
